@@ -65,7 +65,13 @@ SchemaAtoms == {"multipleOf", "type_number", "type_integer", "minimum", "maximum
                 "enum_mixed", "uniqueItems", "anyOf_str_int", "oneOf_two", "allOf_conflict", "not_any",
                 "type_list", "pattern", "format_datetime", "format_uuid", "minLength", "property_named",
                 "required_named", "propertyNames", "patternProperties", "dependencies_named",
-                "items_number", "contains_const", "additionalProperties_false", "object_class"}
+                "items_number", "contains_const", "additionalProperties_false", "object_class",
+                (* patterns that are valid one by one but cannot be joined into one expression *)
+                "patterns_inline_flag", "patterns_same_group",
+                (* finite, acyclic schemas nested beyond the interpreter's recursion budget:   *)
+                (* parsing must end in an error of the schema-parse family, not RecursionError *)
+                "deep_items", "deep_not", "deep_anyOf", "deep_properties", "deep_additional",
+                "deep_dependencies", "deep_within_budget"}
 NameClasses == {"nul", "del", "private_use", "surrogate", "paren", "space", "superscript", "empty",
                 "combining", "keyword", "dunder"}
 
